@@ -275,6 +275,44 @@ def k4_walk(ctx):
             ctx.finding('K4', 'convert/bridge-code-selection', 'bridge code selection changed: %s' % sel, site=t2['loc'])
 
 
+def k4b_result(ctx):
+    """K4b the result of calculate_unit is the walk's accumulator itself (no rounding, clamping or rescaling afterwards:
+    any absolute post-processing breaks linearity for small amounts); convert hands it on unchanged"""
+    ctx.rule('K4b', 'conversion result is the accumulated value', floor=3)
+    b = ctx.facts.one(r'DynamicTypeItem::calculate_unit$')
+    ctx.fn(b)
+    n = 0
+    for i in b.normal_blocks:
+        for st in b.blocks[i]['stmts']:
+            if st['k'] == 'assign' and st['lhs']['local'] == 0 and not st['lhs']['proj'] and st['rv'] == 'aggr' and st['adt'].endswith('Option::Some'):
+                n += 1
+                r = render(b.mexpr(st['ops'][0])).lstrip('$')
+                if r == 'number':
+                    ctx.ok('K4b', 'calculate_unit returns Some(number) unchanged', 'use-def', site=st['loc'], sample=n < 2)
+                else:
+                    ctx.finding('K4b', 'calculate_unit/result-post-processed', 'calculate_unit returns %s instead of the accumulated amount: the conversion is no longer the composition of the configured steps' % r[:100], site=st['loc'])
+    if n < 2:
+        raise AnchorLost('calculate_unit: expected the same-unit and the walked result, found %d Some(..) results' % n)
+    # the accumulator is only ever assigned the step result
+    num = [l for l, nm in b.names.items() if nm == 'number']
+    for i in b.normal_blocks:
+        for st in b.blocks[i]['stmts']:
+            if st['k'] == 'assign' and st['lhs']['local'] in num and not st['lhs']['proj'] and b.in_loop(i):
+                r = render(b.sexpr(st['ops'][0])) if st['rv'] == 'use' else st['rv']
+                if st['rv'] != 'use' or 'basic_execute' not in render(b.expr(st['ops'][0])):
+                    ctx.finding('K4b', 'calculate_unit/accumulator-write', 'inside the walk the amount is assigned %s, not the result of the step code' % r[:80], site=st['loc'])
+    c = ctx.facts.one(r'DynamicTypeItem::convert$')
+    ctx.fn(c)
+    bad = 0
+    for i in c.normal_blocks:
+        for st in c.blocks[i]['stmts']:
+            if st['k'] == 'assign' and st['rv'] == 'binop' and st['lhs'].get('ty') == 'f64':
+                bad += 1
+                ctx.finding('K4b', 'convert/arithmetic', 'convert does arithmetic of its own on the amount (%s): conversions must be the configured steps only' % st['op'], site=st['loc'])
+    if not bad:
+        ctx.ok('K4b', 'convert does no arithmetic of its own on the amount', 'shape', site=c.loc)
+
+
 def k6_table(ctx):
     """K6 decision table of DynamicTypeItem::calculate"""
     ctx.rule('K6', 'arithmetic table of unit quantities', floor=5)
@@ -297,7 +335,30 @@ def k6_table(ctx):
     else:
         ctx.ok('K6', 'other converted into self.1.names[0] under the DYNAMIC_TYPE arm', 'gamma', site=t['loc'])
     # (2) operation table and result kinds
-    check_binop_table(ctx, b, 'K6', result_adt='compiler::dynamic_type::DynamicTypeItem', same_kind_quotient=True)
+    raw = check_binop_table(ctx, b, 'K6', result_adt='compiler::dynamic_type::DynamicTypeItem', same_kind_quotient=True)
+    # (3) on every path of the DYNAMIC_TYPE arm the operand that enters the arithmetic is the *converted* amount
+    seen = set()
+    n = 0
+    for variant, rows in sorted((raw or {}).items()):
+        for l, r in rows:
+            for operand in (l, r):
+                for a, conds in alternatives(b, operand):
+                    cs = [cond_str(d, v) for d, v in resolve_conds(b, conds)]
+                    if not any('"DYNAMIC_TYPE")!=[0]' in c for c in cs):
+                        continue
+                    txt = render(a)
+                    n += 1
+                    if 'DynamicTypeItem::convert(' in txt:
+                        continue
+                    extra = [c for c in cs if 'type_name' not in c and not c.startswith('on_left') and 'downcast_ref' not in c]
+                    key = 'calculate/unconverted-operand'
+                    if key not in seen:
+                        seen.add(key)
+                        ctx.finding('K6', key, 'under the DYNAMIC_TYPE arm the amount %s enters the arithmetic without conversion into the left operand\'s unit (when %s): quantities of different units or families are combined as if they were the same' % (txt[:80], extra[:2] or 'always'), site=b.loc)
+    if n and not seen:
+        ctx.ok('K6', 'every operand of the DYNAMIC_TYPE arm is the result of convert(..) (%d operand alternatives)' % n, 'gamma', site=b.loc)
+    elif not n:
+        ctx.finding('K6', 'calculate/dynamic-arm-operands', 'no arithmetic operand is tied to the DYNAMIC_TYPE arm: the table could not be extracted', site=b.loc)
 
 
 def k7_patterns(ctx):
@@ -342,4 +403,4 @@ def k8_pure(ctx):
             ctx.ok('K8', '%s writes no shared state' % short_fn(b), 'effects', site=b.loc)
 
 
-RULES = [('K5', k5_linear), ('K1', k1_inverse), ('K2', k2_definitions), ('K3', k3_kinds), ('K4', k4_walk), ('K6', k6_table), ('K7', k7_patterns), ('K8', k8_pure)]
+RULES = [('K5', k5_linear), ('K1', k1_inverse), ('K2', k2_definitions), ('K3', k3_kinds), ('K4', k4_walk), ('K4b', k4b_result), ('K6', k6_table), ('K7', k7_patterns), ('K8', k8_pure)]
